@@ -13,7 +13,7 @@ SPECDIR = os.path.join(vf.SPEC, "coin")
 
 META = dict(
     technique="TLA+ state machine of the random coin over symbolic hash terms, model-checked by TLC; seeded random call histories recorded on the real DefaultRandomCoin through a logging hasher and validated event by event by TLC against the same machine (trace validation)",
-    text="Design level: for every history of up to 3 (4) calls over two model fields TLC checks that equal histories give equal states and results, that replacing one reseed digest makes every later result come from a different digest, that no result digest is used twice, that integer draws return exactly n values below the domain size and that the counter is reset by reseeding. Implementation level: every public call (new, reseed, draw over base/quadratic/cubic elements, draw_integers, check_leading_zeros) of recorded histories over 18 hasher/field instantiations is explained by the machine using the hasher calls the coin made; drawn elements are valid per coordinate, integers are the masked first 8 bytes, leading-zeros is the trailing-zero count of the first 8 bytes of merge_with_int(seed, nonce); two identical runs are event-for-event equal and a run with one reseed digest replaced reads all later results from different digests.",
+    text="Design level: for every history of up to 3 (4) calls over two model fields TLC checks that equal histories give equal states and results, that replacing one reseed digest makes every later result come from a different digest, that no result digest is used twice, that integer draws return exactly n values below the domain size and that the counter is reset by reseeding. Implementation level: every public call (new, reseed, draw over base/quadratic/cubic elements, draw_integers, check_leading_zeros) of recorded histories over 18 hasher/field instantiations plus a harness-defined transparent-head hasher (merge_with_int output begins with the integer, so check_leading_zeros is validated on every count 0..64) is explained by the machine using the hasher calls the coin made; drawn elements are valid per coordinate, integers are the masked first 8 bytes, leading-zeros is the trailing-zero count of the first 8 bytes of merge_with_int(seed, nonce); two identical runs are event-for-event equal and a run with one reseed digest replaced reads all later results from different digests.",
     note="Hash functions are treated as collision-free (digests are interned ids); the machine's hashes are looked up among the calls the coin made through the Hasher/ElementHasher traits, so a coin that obtained the same digests without calling H::merge / H::merge_with_int / H::hash_elements would be rejected. Domain sizes <= 2^24, n <= 255 (TLC integers are 32-bit); documented panics of draw_integers (size not a power of two, n >= size) are preconditions of the generator.",
     design="7/C20")
 
@@ -21,7 +21,7 @@ MOD = {"f64": 2**64 - 2**32 + 1, "f62": 2**62 - 111 * 2**39 + 1, "f128": 2**128 
        "t97": 97, "t257": 257, "t257r": 257, "t40961": 40961, "t40961r": 40961}
 WIDTH = {"f64": 8, "f62": 8, "f128": 16, "t97": 4, "t257": 4, "t257r": 4, "t40961": 4, "t40961r": 4}
 MAXDEG = {"f128": 2}
-HNAME = {"b256": "Blake3_256", "b192": "Blake3_192", "sha3": "Sha3_256", "rp64": "Rp64_256", "rpj64": "RpJive64_256",
+HNAME = {"thead": "TransparentHead", "b256": "Blake3_256", "b192": "Blake3_192", "sha3": "Sha3_256", "rp64": "Rp64_256", "rpj64": "RpJive64_256",
          "rp62": "Rp62_248"}
 # (hasher, field, is_toy)
 COMBOS = [("b256", "f128"), ("b256", "f64"), ("b256", "f62"), ("b192", "f128"), ("b192", "f64"), ("b192", "f62"),
@@ -29,6 +29,10 @@ COMBOS = [("b256", "f128"), ("b256", "f64"), ("b256", "f62"), ("b192", "f128"), 
           ("b256", "t97"), ("b256", "t257"), ("sha3", "t257r"), ("b256", "t40961"), ("b192", "t40961"),
           ("sha3", "t40961r")]
 NONCES = [0, 1, 2**64 - 1, 2**32, 2**63]
+# The harness' transparent-head hasher (merge_with_int(seed, v) has v as its first 8 bytes): the driver
+# chooses the digest head, so every trailing-zero count 0..64 of check_leading_zeros is reached (with real
+# hashers a head with > ~30 trailing zero bits never occurs).
+SWEEP_COMBOS = [("thead", "f64"), ("thead", "f128"), ("thead", "f62"), ("thead", "t40961")]
 
 
 def le(v, n):
@@ -83,6 +87,25 @@ def gen_history(rng, hid, h, f, maxlen, err_draws=1):
     di = rng.choice(idx)
     alt = list(ops[di]["data"]) + [rng.randrange(256)]
     return {"hid": hid, "h": h, "f": f, "seed": seed, "ops": ops, "div": di + 2, "alt": alt}
+
+
+def gen_lz_sweep(rng, hid, h, f):
+    """check_leading_zeros with nonces of every trailing-zero count 0..64 (random odd number shifted left by
+    the count; 0 for 64), spread over the coin states after new / reseed / draw / draw_integers"""
+    counts = list(range(65))
+    rng.shuffle(counts)
+    nonces = [0 if k == 64 else ((2 * rng.randrange(2 ** (63 - k)) + 1) << k) for k in counts]
+    between = [{"op": "reseed", "data": [rng.randrange(256) for _ in range(4)]}, {"op": "draw", "deg": 1},
+               {"op": "ints", "n": 5, "size": 1 << rng.randint(3, 24), "nonce": le(rng.randrange(2**64), 8)},
+               {"op": "draw", "deg": 2}, {"op": "reseed", "data": [3]}]
+    ops = []
+    for i, x in enumerate(nonces):
+        ops.append({"op": "lz", "nonce": le(x, 8)})
+        if i % 11 == 10 and between:
+            ops.append(between.pop(0))
+    first_reseed = next(i for i, o in enumerate(ops) if o["op"] == "reseed")
+    return {"hid": hid, "h": h, "f": f, "oracle": 0, "seed": [le(rng.randrange(MOD[f]), WIDTH[f])], "ops": ops,
+            "div": first_reseed + 2, "alt": [rng.randrange(256) for _ in range(5)]}
 
 
 def record(binary, hists, name):
@@ -224,6 +247,9 @@ def run(ck, tier):
             hid += 1
             # quick tier: failing 1000-candidate draws only in the first two toy instantiations
             hists.append(gen_history(ck.rng, hid, h, f, maxlen, err_draws=1 if (thorough or ntoy <= 2) else 0))
+    for (h, f) in SWEEP_COMBOS:
+        hid += 1
+        hists.append(gen_lz_sweep(ck.rng, hid, h, f))
     # the integer draw with zero requested values: a tiny history of its own, recorded and validated apart
     # from the others so that it cannot hide anything else
     hid += 1
@@ -249,6 +275,23 @@ def run(ck, tier):
         kinds[key] = kinds.get(key, 0) + 1
     for k in ["new", "reseed", "draw/ok", "draw/err", "ints/ok", "lz", "end"] + (["ints/err"] if thorough else []):
         ck.require(kinds.get(k, 0) > 0, "no recorded event of kind " + k)
+    # vacuity: over the transparent-head hasher every count 0..64 was reported by check_leading_zeros
+    lz_counts, cur = {}, None
+    for e in events:
+        if e["e"] == "begin":
+            cur = (e["h"], e["f"])
+        elif e["e"] == "lz" and e["r"]["t"] == "ok":
+            lz_counts.setdefault(cur, set()).add(e["r"]["v"][0])
+    expected_nonce_counts = set(range(65))
+    for hf in SWEEP_COMBOS:
+        nonce_tz = set()
+        for hh in hists:
+            if (hh["h"], hh["f"]) == hf:
+                for o in hh["ops"]:
+                    if o["op"] == "lz":
+                        v = int.from_bytes(bytes(o["nonce"]), "little")
+                        nonce_tz.add(64 if v == 0 else (v & -v).bit_length() - 1)
+        ck.require(nonce_tz == expected_nonce_counts, "leading-zeros sweep over %s<%s> misses digest heads with some trailing-zero count" % hf)
     retried = sum(1 for e in events if e["e"] == "draw" and e["r"]["t"] == "ok" and len(e["hf"]) >= 2)
     ck.require(retried > 0, "no draw that succeeded after a rejected candidate")
     t1 = time.time()
@@ -270,9 +313,11 @@ def run(ck, tier):
             break
     ck.part("recorded", histories=len(hists), runs=3 * len(hists), coin_calls=ncalls, hasher_calls=summary["hash_facts"],
             events_by_kind=kinds, draws_accepted_after_rejection=retried, rejected_events=nrej,
-            instantiations=["%s<%s>" % (HNAME[h], f) for h, f in COMBOS])
+            instantiations=["%s<%s>" % (HNAME[h], f) for h, f in COMBOS + SWEEP_COMBOS],
+            leading_zero_counts_reported={"%s<%s>" % (HNAME[h], f): sorted(v) for (h, f), v in lz_counts.items()
+                                          if (h, f) in SWEEP_COMBOS})
     ck.bounds = {"design": "histories <= %d calls, model fields m97/m251 (1-byte elements), MaxTries scaled to 3" % (4 if thorough else 3),
-                 "recorded": "%d histories x 3 runs, <= %d calls each, 18 hasher/field instantiations, domain sizes 2..2^24, n <= 255, nonces incl. 0 and 2^64-1" % (len(hists), maxlen)}
+                 "recorded": "%d histories x 3 runs, <= %d calls each, 18 real + 4 transparent-head hasher/field instantiations, domain sizes 2..2^24, n <= 255, nonces incl. 0 and 2^64-1" % (len(hists), maxlen)}
     ck.exhaustive = False
     ck.assumptions = ["hash functions are collision free on the observed inputs (digests interned to ids)",
                       "the coin reaches its hashes through the Hasher / ElementHasher traits",
